@@ -6,8 +6,8 @@ import json, os, re, subprocess, time, random, itertools
 from . import common as C
 
 B_OPS = [{"op": "read", "i": 0}, {"op": "clone", "i": 0}, {"op": "drop", "i": 0}, {"op": "try_into_mut", "i": 0},
-         {"op": "into_vec", "i": 0}, {"op": "into_mut", "i": 0}, {"op": "slice", "i": 0}]
-S_OPS = [{"op": "clone_s"}, {"op": "read_s"}, {"op": "slice_s"}]
+         {"op": "into_vec", "i": 0}, {"op": "into_mut", "i": 0}, {"op": "slice", "i": 0}, {"op": "is_unique", "i": 0}]
+S_OPS = [{"op": "clone_s"}, {"op": "read_s"}, {"op": "slice_s"}, {"op": "is_unique_s"}]
 M_OPS = [{"op": "write", "i": 0}, {"op": "reserve", "i": 0, "n": 16}, {"op": "try_reclaim", "i": 0, "n": 6}, {"op": "freeze", "i": 0},
          {"op": "drop", "i": 0}, {"op": "read", "i": 0}, {"op": "put", "i": 0}, {"op": "advance", "i": 0, "n": 1}, {"op": "split_off", "i": 0},
          {"op": "split_to", "i": 0}]
@@ -80,6 +80,12 @@ def programs(tier, seed):
             for conv in ("into_vec", "into_mut", "try_into_mut"):
                 canon.append({"init": init, "threads": [[{"op": conv, "i": 0}], dd]})
     canon.append({"init": {"repr": "prom", "len": 8, "off": 0, "give": False}, "threads": [[{"op": "clone_s"}, {"op": "drop", "i": 0}], [{"op": "clone_s"}, {"op": "drop", "i": 0}]]})
+    # uniqueness queried while another thread promotes / releases
+    for off in (0, 3):
+        canon.append({"init": {"repr": "prom", "len": 8, "off": off, "give": False}, "threads": [[{"op": "clone_s"}, {"op": "drop", "i": 0}], [{"op": "is_unique_s"}, {"op": "is_unique_s"}]]})
+    for init in ({"repr": "shared", "len": 8, "give": True, "drop_main": True}, {"repr": "prom_arc", "len": 8, "give": True, "drop_main": True},
+                 {"repr": "sharedm", "len": 8, "kinds": ["B", "C"]}):
+        canon.append({"init": init, "threads": [[{"op": "read", "i": 0}, {"op": "drop", "i": 0}], [{"op": "is_unique", "i": 0}, {"op": "try_into_mut", "i": 0}]]})
     # one thread writes its piece and drops it; the other splits its own piece (a count that was 1 is touched again),
     # drops the new piece and takes the rest of the buffer back
     for sp in ("split_off", "split_to"):
